@@ -44,6 +44,8 @@ type World struct {
 	WarmFail    bool
 	WarmUp      bool // guns implement WarmedUp
 	WarmDur     time.Duration
+	ProvBuf     int       // size of the provider's queue (0: hands items over one by one)
+	OutAt       time.Time // when an instance first found the ammo exhausted
 	Closable    bool
 	ShotDur     []time.Duration
 	ShotN       int
@@ -99,7 +101,9 @@ type Prov struct {
 	sink chan core.Ammo
 }
 
-func NewProv(w *World) *Prov { return &Prov{w: w, sink: make(chan core.Ammo)} }
+// NewProv: with w.ProvBuf > 0 the provider reads ahead into a queue of that size, so its Run returns
+// as soon as everything is queued - long before the ammo has been used up.
+func NewProv(w *World) *Prov { return &Prov{w: w, sink: make(chan core.Ammo, w.ProvBuf)} }
 
 func (p *Prov) Run(ctx context.Context, _ core.ProviderDeps) error {
 	w := p.w
@@ -130,6 +134,9 @@ func (p *Prov) Run(ctx context.Context, _ core.ProviderDeps) error {
 
 func (p *Prov) Acquire() (core.Ammo, bool) {
 	a, ok := <-p.sink
+	if !ok && p.w.OutAt.IsZero() {
+		p.w.OutAt = time.Now()
+	}
 	if ok {
 		p.w.AcquireN++
 		if p.w.Acquired[a.(int)] != 0 {
